@@ -35,6 +35,7 @@ pub fn binary_profile(max_nodes: usize) -> ForestProfile {
         // the binary writer returns a clean "unsupported type" error (it has no way
         // to know the blob is an attribute map). Outside C01's domain.
         exclude_unknown_types: vec![rbx_types::VariantType::Attributes],
+        multi_spelling: false,
     }
 }
 
